@@ -1,6 +1,6 @@
 From RsdnsModel Require Import Base Client Timed.
 From RsdnsModel.Spec Require Import Retry.
-From RsdnsModel.Proofs Require Import ClientProofs TimedProofs TimedUntimed.
+From RsdnsModel.Proofs Require Import ClientProofs TimedProofs TimedUntimed TimedSame.
 From RsdnsModel.Properties Require Import C15.
 Open Scope N_scope.
 Check (C15_armed_within_lifetime : forall elapsed lifetime qt attempt tau,
@@ -70,4 +70,8 @@ Check (C15_in_time_example : forall std, client_query_timed std false ex_q 1050 
     [(1310, [x12; x34; x83; x80; x00; x01; x00; x00; x00; x00; x00; x00; x01; "a"; x00; x00; x01; x00; x01]%byte)]
     {| tp_accept := Some 0; tp_bytes := [(1320, x00); (1320, x03); (1320, xaa); (1400, xbb); (1400, xcc)]; tp_eof := Some 1400 |}
   = ([1000; 1300], [EvUdpExchange; EvTcpExchange], Ok [xaa; xbb; xcc], 1400)).
-Print Assumptions C15_armed_within_lifetime. Print Assumptions C15_deadline. Print Assumptions C15_attempt_over_retries. Print Assumptions C15_armed_before_call_deadline. Print Assumptions C15_async_durations_are_configured. Print Assumptions C15_exchange_refines_spec. Print Assumptions C15_schedule_nth. Print Assumptions C15_schedule_complete. Print Assumptions C15_only_answers_matter. Print Assumptions C15_std_is_async. Print Assumptions C15_retries_with_slack. Print Assumptions C15_call_ends_by_deadline. Print Assumptions C15_example. Print Assumptions C15_example_cpu_time. Print Assumptions C15_in_time_is_untimed. Print Assumptions C15_in_time_example.
+Check (C15_all_clients_one_machine : forall smol smol' q lifetime qt buf strategy arrs srv,
+  qt_pos qt -> 0 < lifetime ->
+  client_query_timed true smol q lifetime qt zero_jit zero_jit buf strategy arrs srv =
+  client_query_timed false smol' q lifetime qt zero_jit zero_jit buf strategy arrs srv).
+Print Assumptions C15_armed_within_lifetime. Print Assumptions C15_deadline. Print Assumptions C15_attempt_over_retries. Print Assumptions C15_armed_before_call_deadline. Print Assumptions C15_async_durations_are_configured. Print Assumptions C15_exchange_refines_spec. Print Assumptions C15_schedule_nth. Print Assumptions C15_schedule_complete. Print Assumptions C15_only_answers_matter. Print Assumptions C15_std_is_async. Print Assumptions C15_retries_with_slack. Print Assumptions C15_call_ends_by_deadline. Print Assumptions C15_example. Print Assumptions C15_example_cpu_time. Print Assumptions C15_in_time_is_untimed. Print Assumptions C15_in_time_example. Print Assumptions C15_all_clients_one_machine.
